@@ -775,7 +775,7 @@ def t_flags_value(facts, res, tier):
                             desc = None
                     elif mn in ("STA", "STX", "STY"):
                         simulable = False
-                key = "T-FLAGS-VALUE:%s:%s:%s" % (fn["name"], variant, "+".join("%s.%s" % (x[0], x[1]) for x in seq if x[0] in ("INC", "DEC", "LDA")) or "store")
+                key = "T-FLAGS-VALUE:%s:%s:%s" % (fn["name"], variant, "+".join("%s.%s" % (x[0], x[1]) for x in seq if x[0] in ("INC", "DEC", "LDA")) or ("store" if desc is not None else "store-only"))
                 if key in seen:
                     continue
                 seen.add(key)
@@ -793,6 +793,13 @@ def t_flags_value(facts, res, tier):
                     if not n_ok:
                         res.fail(key + ":N", facts.where(fn, e["node"]), "%s records that the flags describe the 16-bit operand after %s, but N is not its sign: value %d becomes %d and N shows the sign of a single byte; a following `< 0` / `>= 0` test branches on it" % (
                             fn["name"], [x for x in seq if x[0] != "label"], wn[0], wn[1]))
+                    continue
+                if desc is None and "lo" in a_eq:
+                    # the claim rests on a store of the accumulator alone: N/Z follow the value into the operand only if they
+                    # were those of the accumulator - after a call, a PLA or a join they are not, and nothing in this window set them
+                    flags_were_a = any(k2.startswith("self.flags@") and allowed is not None and set(allowed) == {"A"} for k2, (allowed, excl) in st.cons.items())
+                    if not flags_were_a:
+                        res.fail(key + ":store-needs-A", facts.where(fn, e["node"]), "%s stores the accumulator to `%s` and records that the flags describe it, on a path where nothing says the flags were those of the accumulator: `x = f(); if (x)` then branches on whatever flags the callee left (JSR f / STA x / BEQ)" % (fn["name"], base))
                     continue
                 if not supported and not maybe_wide:
                     res.fail(key, facts.where(fn, e["node"]), "%s records that the flags describe %s operand `%s`, but the last N/Z-changing instruction emitted on this path does not load, increment, decrement or store that operand (N/Z describe %s)" % (
